@@ -772,18 +772,119 @@ fn run_c01(a: &Args) {
             var.v, var.drounds, blit(&key), var.nonce_len, blit(&nonce), nlit_u128(pos), n, dlit(&data), res.code(), blit(&outb)
         ));
     }
+    // ONE call far longer than the designated large cases (they stop at 16 KiB = 64 iterations of the
+    // 256-byte loop): 64 KiB + 256 .. + 4255 bytes, more than 256 wide iterations and more than 2^16
+    // bytes in one call. Comparing all of it with the spec would cost coqc ~10 s, so (i) three
+    // 512-byte WINDOWS of the output (around the 65th wide iteration, around byte 2^16 of the wide
+    // run, the last 512 bytes) go to Coq as ordinary cases "seek(pos + offset), apply(512 bytes)":
+    // the spec at the right block index; (ii) the WHOLE output must be what the same object type
+    // gives for the same data in 4 KiB calls (each of those is a shape the other cases compare with
+    // the spec). Appended after the `count` ordinary cases; `--long 0` switches it off.
+    let mut long_js = String::from("null");
+    let mut long_direct: Vec<String> = Vec::new();
+    let mut n_cases = count;
+    if a.u64("long", 1) > 0 {
+        let var = &VARIANTS[((seed / 3) % 7) as usize];
+        let key = rng.bytes(32);
+        let nonce = rng.bytes(var.nonce_len);
+        let n = 65536 + 256 + rng.below(4000) as usize;
+        let b38: u128 = 1 << 38;
+        let (pos, shape): (u128, &str) = match seed % 3 {
+            0 => (64 * rng.below(4) as u128 + 1 + rng.below(63) as u128, "mid-block start near 0"),
+            1 => {
+                if var.v == 1 {
+                    (b38 - n as u128, "ends exactly at 2^38")
+                } else {
+                    (b38 - rng.range(17000, n as u64 - 600) as u128, "across 2^32 blocks after more than 64 wide iterations")
+                }
+            }
+            _ => ((rng.u64() as u128 % (b38 - 80000)) | 1, "random odd position"),
+        };
+        let data = gen_data(&mut rng, n);
+        let pseed = pat_seed(&data).map(|s| s as i64).unwrap_or(-1);
+        *by_variant.entry(var.name).or_default() += 1;
+        *len_hist.entry(len_class(n)).or_default() += 1;
+        let head = ((64 - (pos % 64)) % 64) as usize;
+        let iters = (n - head) / 256;
+        let ident = format!("\"variant\":{},\"key\":{},\"nonce\":{},\"pos\":\"{}\",\"len\":{},\"data\":\"Pat(len, {}): high bytes of x, 5x+12345 mod 2^16 from that seed\"", jstr(var.name), jstr(&hex(&key)), jstr(&hex(&nonce)), pos, n, pseed);
+        let one = catch_unwind(AssertUnwindSafe(|| {
+            let mut c = AnyCipher::new(var, &key, &nonce);
+            let sr = c.seek(Ty::U64, pos as i128);
+            let mut buf = data.clone();
+            let r = if sr == Res::Ok { c.apply(&mut buf) } else { Res::Panic };
+            (sr, r, buf, c.pos(Ty::U128))
+        }));
+        let mut windows: Vec<usize> = Vec::new();
+        let mut same_4k = false;
+        match one {
+            Ok((sr, r, buf, after)) if sr == Res::Ok && r == Res::Ok => {
+                res_count[0] += 1;
+                max_wide_iters = max_wide_iters.max(iters);
+                if after != (Res::Ok, (pos + n as u128) as i128) {
+                    long_direct.push(format!("{{{},\"what\":\"after the one call current_pos::<u128>() is {} {}, expected {}\"}}", ident, after.0.s(), after.1, pos + n as u128));
+                }
+                // (ii) the same bytes in 4 KiB calls
+                let mut c = AnyCipher::new(var, &key, &nonce);
+                let mut b2 = data.clone();
+                let mut ok4 = c.seek(Ty::U64, pos as i128) == Res::Ok;
+                for piece in b2.chunks_mut(4096) {
+                    ok4 &= c.apply(piece) == Res::Ok;
+                }
+                same_4k = ok4 && b2 == buf;
+                if !same_4k {
+                    let at = b2.iter().zip(buf.iter()).position(|(x, y)| x != y).unwrap_or(n);
+                    long_direct.push(format!(
+                        "{{{},\"what\":\"one apply_keystream call of {} bytes ({} wide iterations) gives other bytes than the same data in 4 KiB calls on a second object seeked to the same position (all calls ok: {}); first differing byte {} (wide iteration {}): one call {}, 4 KiB calls {}\"}}",
+                        ident, n, iters, ok4, at, at.saturating_sub(head) / 256 + 1,
+                        jstr(&hex(&buf[at.min(n - 1)..(at + 16).min(n)])), jstr(&hex(&b2[at.min(n - 1)..(at + 16).min(n)]))
+                    ));
+                }
+                // (i) windows of the one call's output against model and spec
+                windows = vec![head + 64 * 256 - 128, head + 65536 - 256, n - 512];
+                for off in windows.iter() {
+                    let (wd, wo) = (&data[*off..*off + 512], &buf[*off..*off + 512]);
+                    let wpos = pos + *off as u128;
+                    distinct.insert((var.name, key.clone(), nonce.clone(), wpos, wd.to_vec()));
+                    js.push(format!(
+                        "{{\"variant\":{},\"key\":{},\"nonce\":{},\"prefix_history\":[],\"seek_type\":\"u64\",\"pos\":\"{}\",\"len\":512,\"data\":{},\"result\":\"ok\",\"out\":{},\"window_of_one_call\":{{{},\"offset\":{},\"note\":\"data/out are bytes offset..offset+512 of ONE seek(pos) + apply_keystream(len bytes) call; the case says they are the key stream at pos+offset\"}}}}",
+                        jstr(var.name), jstr(&hex(&key)), jstr(&hex(&nonce)), wpos, jstr(&hex(wd)), jstr(&hex(wo)), ident, off
+                    ));
+                    cases.push(format!(
+                        "C01 {} {} {} {} {} {} {} {} {} {}",
+                        var.v, var.drounds, blit(&key), var.nonce_len, blit(&nonce), nlit_u128(wpos), 512, blit(wd), 0, blit(wo)
+                    ));
+                    n_cases += 1;
+                }
+            }
+            Ok((sr, r, _, _)) => {
+                res_count[r.code() as usize] += 1;
+                long_direct.push(format!("{{{},\"what\":\"the one call is within the key stream but seek returned {} and apply_keystream {}\"}}", ident, sr.s(), r.s()));
+            }
+            Err(_) => {
+                res_count[2] += 1;
+                long_direct.push(format!("{{{},\"what\":\"constructor / seek / apply_keystream of the one long call panicked\"}}", ident));
+            }
+        }
+        long_js = format!(
+            "{{{},\"shape\":{},\"wide_iterations\":{},\"window_offsets_compared_with_model_and_spec\":{:?},\"window_cases\":[{},{}],\"whole_output_same_as_4KiB_calls\":{}}}",
+            ident, jstr(shape), iters, windows, count, n_cases, same_4k
+        );
+    }
     write_shards(&out, shards, CASE_HEADER, "c01case", "run_c01", &cases);
     std::fs::write(format!("{}/cases.json", out), format!("[{}]", js.join(",\n"))).unwrap();
     let bv: Vec<String> = by_variant.iter().map(|(k, v)| format!("{}:{}", jstr(k), v)).collect();
     let lh: Vec<String> = len_hist.iter().map(|(k, v)| format!("{}:{}", jstr(k), v)).collect();
     let st: Vec<String> = seek_types.iter().map(|(k, v)| format!("{}:{}", jstr(k), v)).collect();
+    // (failures of the long call first: the report is capped)
+    long_direct.extend(direct);
+    let mut direct = long_direct;
     direct.truncate(5);
     // samples: two small cases (the large ones are in `large_cases` by position and length only)
     let samples: Vec<String> = js.iter().skip(14).filter(|j| j.len() < 3000).take(2).cloned().collect();
     println!(
-        "{{\"evaluations\":{},\"distinct_nontrivial\":{},\"backend_level\":{},\"backend_level_read_back\":{},\"cases_after_a_prefix_history\":{},\"by_variant\":{{{}}},\"length_classes\":{{{}}},\"large_cases\":[{}],\"max_wide_loop_iterations_in_one_call\":{},\"measured_seek_types\":{{{}}},\"calls_next_to_k_2^32_blocks_k_ge_2\":{},\"results\":{{\"ok\":{},\"err\":{},\"panic\":{}}},\"direct_failures\":[{}],\"samples\":[{}]}}",
-        count, distinct.len(), level, readback, n_prefixed, bv.join(","), lh.join(","), large_js.join(","), max_wide_iters, st.join(","), n_high_carry,
-        res_count[0], res_count[1], res_count[2], direct.join(","), samples.join(",")
+        "{{\"evaluations\":{},\"distinct_nontrivial\":{},\"backend_level\":{},\"backend_level_read_back\":{},\"cases_after_a_prefix_history\":{},\"by_variant\":{{{}}},\"length_classes\":{{{}}},\"large_cases\":[{}],\"max_wide_loop_iterations_in_one_call\":{},\"measured_seek_types\":{{{}}},\"calls_next_to_k_2^32_blocks_k_ge_2\":{},\"results\":{{\"ok\":{},\"err\":{},\"panic\":{}}},\"long_call\":{},\"direct_failures\":[{}],\"samples\":[{}]}}",
+        n_cases, distinct.len(), level, readback, n_prefixed, bv.join(","), lh.join(","), large_js.join(","), max_wide_iters, st.join(","), n_high_carry,
+        res_count[0], res_count[1], res_count[2], long_js, direct.join(","), samples.join(",")
     );
 }
 
@@ -1043,6 +1144,14 @@ fn boundary_history(rng: &mut Rng, var: &Variant, sel: usize) -> Vec<Op> {
             ops.push(fill(rng, n2));
             ops.push(Op::Pos(Ty::U128));
             ops.push(fill(rng, 1));
+            if sub == 0 {
+                // first round only (one history per run): ONE apply of 64 KiB + 256 .. + 4255 bytes, continuing
+                // mid-block: more than 256 iterations of the wide loop and more than 2^16 bytes in one call
+                let n3 = 65536 + 256 + rng.below(4000) as usize;
+                ops.push(fill(rng, n3));
+                ops.push(Op::Pos(Ty::U64));
+                ops.push(fill(rng, 1));
+            }
         }
         13 => {
             // 4 KiB (and more) across 2^32 blocks. 64-bit variants: the low counter word carries in
@@ -1209,6 +1318,25 @@ fn relative_checks(rng: &mut Rng, var: &Variant, key: &[u8], nonce: &[u8], ops: 
             }
         }
     }
+    // (e) calls longer than 16 640 bytes (65 and more iterations of the wide loop in one call): a
+    // second object seeked to the same position must give the same bytes in 4 KiB calls
+    for (j, op) in ops.iter().enumerate() {
+        if let Op::Apply(d) = op {
+            let p = refs[j].0;
+            if d.len() > 16640 && refs[j].1 == Res::Ok && p <= u64::MAX as u128 {
+                let mut f = AnyCipher::new(var, key, nonce);
+                let mut ok = f.seek(Ty::U64, p as i128) == Res::Ok;
+                let mut fb = d.clone();
+                for piece in fb.chunks_mut(4096) {
+                    ok &= f.apply(piece) == Res::Ok;
+                }
+                if !ok || fb != refs[j].2 {
+                    let at = fb.iter().zip(refs[j].2.iter()).position(|(x, y)| x != y).unwrap_or(d.len());
+                    failures.insert(0, format!("{{\"op\":{},\"what\":\"one apply of {} bytes at position {} gives other bytes than the same data in 4 KiB calls on a fresh instance seeked to {} (all ok: {}); first differing byte {}\"}}", j, d.len(), p, p, ok, at));
+                }
+            }
+        }
+    }
     failures.truncate(3);
     failures
 }
@@ -1231,8 +1359,8 @@ struct HistResult {
 }
 
 /// blocks past the first one of a call for which the block oracle is filled in (one call of the
-/// large class spans 257 blocks)
-const ORACLE_SPAN: u128 = 700;
+/// large class spans 257 blocks, the one long call of boundary kind 12 up to 1092)
+const ORACLE_SPAN: u128 = 1200;
 
 fn run_history(var: &Variant, key: &[u8], nonce: &[u8], ops: &[Op]) -> HistResult {
     let lim = limit(var);
@@ -1799,6 +1927,7 @@ fn run_c15(a: &Args) {
     let mut by_nlen = [0usize; 2];
     let mut nonce_kinds: BTreeMap<&str, usize> = BTreeMap::new();
     let (mut refill_direct, mut refill_high, mut first_block_checks) = (0usize, 0usize, 0usize);
+    let mut eq_pairs = [0usize; 3]; // `==` evaluated on equal states, on unequal states, on the forced d-word-0 / d-word-1 pairs
     for i in 0..count {
         let key = rng.bytes(32);
         let mut k = [0u8; 32];
@@ -1862,8 +1991,12 @@ fn run_c15(a: &Args) {
             }
         }
         let nops = rng.range(3, 9);
-        for _ in 0..nops {
-            match rng.below(10) {
+        // after the random operations two more `eq_with` operations: a state differing from the current
+        // one ONLY in d word 0, then only in d word 1 (the words the two stream predicates ignore, which
+        // whole-state `==` must not)
+        for opi in 0..nops + 2 {
+            let forced: Option<u64> = if opi < nops { None } else { Some(8 + (opi - nops)) };
+            match if forced.is_some() { 9 } else { rng.below(10) } {
                 0..=2 => {
                     let p = rng.below(2) as u32;
                     let v = match rng.below(6) {
@@ -1944,7 +2077,7 @@ fn run_c15(a: &Args) {
                     // a second state differing in exactly one word (or none)
                     let mut key2 = key.clone();
                     let mut s2 = s.clone();
-                    let which = rng.below(24);
+                    let which = match forced { Some(w) => w, None => rng.below(24) };
                     let mut expect32 = true;
                     let mut expect64 = true;
                     if which >= 14 {
@@ -2012,8 +2145,19 @@ fn run_c15(a: &Args) {
                     }
                     opmix[3] += 1;
                     let d2 = state_d(&s2);
+                    // `PartialEq for ChaCha` (derived: b, c, d) on the same pair: true iff all twelve key / d
+                    // words are equal, `!=` its negation, both ways round. C14 uses `==` as an observation
+                    // and only ever sees equal states there.
+                    let whole_expect = key2 == key && d2 == state_d(&s);
+                    let (eq, ne, eq_rev, ne_rev) = (s == s2, s != s2, s2 == s, s2 != s);
+                    if whole_expect { eq_pairs[0] += 1 } else { eq_pairs[1] += 1 }
+                    if forced.is_some() { eq_pairs[2] += 1 }
+                    if eq != whole_expect || eq_rev != whole_expect || ne == whole_expect || ne_rev == whole_expect {
+                        let cls = if which >= 14 { format!("several words at once (pattern {})", which) } else if which < 8 { format!("one bit of key word {}", which) } else if which < 12 { format!("one bit of d word {}", which - 8) } else { "nothing".to_string() };
+                        fails.push(format!("op {}: whole-state a == b is {} (b == a {}, a != b {}, b != a {}), expected == {}: the states differ in {} (key words equal: {}, d words {:?} / {:?})", jops.len(), eq, eq_rev, ne, ne_rev, whole_expect, cls, key2 == key, state_d(&s), d2));
+                    }
                     pops.push(format!("PEq {} {} {} {}", blit(&key2), dlist(&d2), e32, e64));
-                    jops.push(format!("{{\"eq_with\":{{\"key\":{},\"d\":{:?}}},\"stream32_eq\":{},\"stream64_eq\":{}}}", jstr(&hex(&key2)), d2, e32, e64));
+                    jops.push(format!("{{\"eq_with\":{{\"key\":{},\"d\":{:?}}},\"stream32_eq\":{},\"stream64_eq\":{},\"whole_state_eq\":{}}}", jstr(&hex(&key2)), d2, e32, e64, eq));
                 }
             }
         }
@@ -2031,8 +2175,9 @@ fn run_c15(a: &Args) {
     direct.truncate(5);
     let nk: Vec<String> = nonce_kinds.iter().map(|(k, v)| format!("{}:{}", jstr(k), v)).collect();
     println!(
-        "{{\"evaluations\":{},\"distinct_nontrivial\":{},\"backend_level\":{},\"backend_level_read_back\":{},\"nonce_length\":{{\"8\":{},\"12\":{}}},\"nonce_kinds\":{{{}}},\"initial_state_built_by_the_model_from_key_and_nonce\":true,\"first_block_vs_cipher_type_checks\":{},\"op_mix\":{{\"set\":{},\"get\":{},\"refill\":{},\"eq\":{}}},\"refills_checked_against_a_cipher_type\":{},\"refills_at_counter_ge_2^58_checked_by_the_model_only\":{},\"direct_failures\":[{}],\"samples\":[{}]}}",
+        "{{\"evaluations\":{},\"distinct_nontrivial\":{},\"backend_level\":{},\"backend_level_read_back\":{},\"nonce_length\":{{\"8\":{},\"12\":{}}},\"nonce_kinds\":{{{}}},\"initial_state_built_by_the_model_from_key_and_nonce\":true,\"first_block_vs_cipher_type_checks\":{},\"op_mix\":{{\"set\":{},\"get\":{},\"refill\":{},\"eq\":{}}},\"refills_checked_against_a_cipher_type\":{},\"refills_at_counter_ge_2^58_checked_by_the_model_only\":{},\"whole_state_eq_evaluated\":{{\"on_equal_states\":{},\"on_unequal_states\":{},\"of_which_differing_only_in_d_word_0_or_1\":{}}},\"direct_failures\":[{}],\"samples\":[{}]}}",
         count, distinct.len(), level, readback, by_nlen[0], by_nlen[1], nk.join(","), first_block_checks, opmix[0], opmix[1], opmix[2], opmix[3], refill_direct, refill_high,
+        eq_pairs[0], eq_pairs[1], eq_pairs[2],
         direct.join(","), js.iter().take(2).cloned().collect::<Vec<_>>().join(",")
     );
 }
